@@ -203,7 +203,10 @@ impl RK23 {
 
             // Check for last step adjustment
             let mut last = false;
-            if (x + h - xend) * posneg > 0.0 {
+            // (1% stretch as in DOPRI5/DOP853: steps that add up to xend only up to rounding,
+            // e.g. a max_step dividing the interval exactly, must not leave a closing step of a
+            // few ulps that costs a step of the budget and a near-duplicate sample)
+            if (x + 1.01 * h - xend) * posneg > 0.0 {
                 h = xend - x;
                 last = true;
             }
